@@ -54,6 +54,11 @@ func (si *SearchIndex) Search(targetKey []byte, readKey func(offset int64) ([]by
 		foundIndex--
 	}
 
+	// The target sorts before the first key of the table so there's nothing to scan.
+	if foundIndex < 0 {
+		return 0, 0, nil
+	}
+
 	// Use a scan from this point to look for the key
 	startOffset := int64(si.offsets[foundIndex])
 
